@@ -254,6 +254,8 @@ def text_block(data, i):
     while i < n and data[i] == 0x0A:
         lines.append(b"\n")
         i += 1
+    if i < n and data[i] == 0x0D:
+        raise Unmodelled()
     # first line defines the prefix
     j = i
     while j < n and data[j] in b" \t":
